@@ -988,7 +988,7 @@ class Path:
 class Explorer:
     def __init__(self, fns, src, summaries, max_visits=4, max_paths=20000, havoc_unknown=False, max_seconds=None):
         import os as _os
-        self.max_seconds = max_seconds or float(_os.environ.get("MIRSMT_EXPLORE_SECONDS", "240"))
+        self.max_seconds = max_seconds or float(_os.environ.get("MIRSMT_EXPLORE_SECONDS", "150"))
         self.fns, self.src, self.summaries = fns, src, summaries
         self.callres = CallResolver(fns, src)
         self.max_visits, self.max_paths, self.havoc_unknown = max_visits, max_paths, havoc_unknown
